@@ -5,6 +5,7 @@
 #include <plibsys.h>
 #include <sched.h>
 #include <time.h>
+#include <errno.h>
 #include "vtmt.h"
 
 static PMutex *mx; static PCondVariable *cv; static const char *base;
@@ -68,6 +69,7 @@ static int wait_returned (int want) {
 	while (p_atomic_int_get (&returned) < want) { if (now () - t0 > 10.0) return 0; sched_yield (); }
 	return 1;
 }
+static void hold (int ms) { struct timespec ts; if (ms <= 0) return; ts.tv_sec = ms / 1000; ts.tv_nsec = (ms % 1000) * 1000000L; while (nanosleep (&ts, &ts) == -1 && errno == EINTR) ; }
 static void stuck_exit (void) {
 	int i;
 	for (i = 1; i <= nw; i++) if (wstate[i] == 1) VTM ("\"e\":\"Stuck\",\"t\":%d", i);
@@ -89,7 +91,7 @@ int main (int argc, char **argv) {
 		VTM ("\"e\":\"Epoch\",\"cell\":%ld", fill);
 		for (i = 1; i <= nprod + ncons; i++) pthread_join (th[i], NULL);
 	} else {
-		int bcast = !strcmp (argv[4], "broadcast"), rounds = atoi (argv[5]), r;
+		int bcast = !strcmp (argv[4], "broadcast"), rounds = atoi (argv[5]), r, hold_ms = argc > 6 ? atoi (argv[6]) : 0;   /* the signaller's critical section lasts hold_ms */
 		nw = atoi (argv[3]);
 		vtm_init (nw + 1); vtm_open (base, 0);
 		for (i = 1; i <= nw; i++) pthread_create (&wth[i], NULL, waiter, (void *) (long) i);
@@ -111,11 +113,11 @@ int main (int argc, char **argv) {
 				sched_yield ();
 			  } }
 			if (bcast) {
-				call_ (17, "lock"); call_ (17, "broadcast"); call_ (17, "unlock");
+				call_ (17, "lock"); hold (hold_ms); call_ (17, "broadcast"); call_ (17, "unlock");
 				if (!wait_returned (nw)) stuck_exit ();
 			} else {
 				for (i = 1; i <= nw; i++) {
-					call_ (17, "lock"); call_ (17, "signal"); call_ (17, "unlock");
+					call_ (17, "lock"); hold (hold_ms); call_ (17, "signal"); call_ (17, "unlock");
 					if (!wait_returned (i)) stuck_exit ();
 				}
 			}
